@@ -393,7 +393,12 @@ pub fn run(ctx: &mut Ctx) {
 		let depths: Vec<usize> = if ctx.quick() { vec![1_000, 100_000, 1_000_000] } else { vec![1_000, 10_000, 100_000, 1_000_000, 2_000_000] };
 		let mut configs = vec![];
 		for (f, _) in DEEP_FAMILIES {
+			let length_family = matches!(f, DeepFamily::WhitespaceRuns | DeepFamily::LongString | DeepFamily::LongNumber | DeepFamily::WideArray | DeepFamily::WideObject | DeepFamily::LongStringThenError);
 			for &n in &depths {
+				// per-element recursion overflows 128 KiB after a few thousand elements: 10^5 is plenty in the quick tier
+				if length_family && ctx.quick() && n > 100_000 {
+					continue;
+				}
 				for opt in [0usize, 3] {
 					if opt == 3 && n != depths[depths.len() - 1] {
 						continue;
